@@ -219,7 +219,7 @@ func recipeEquivalent(key, got, want string) bool {
 		if !missing {
 			extraOK := true
 			for g := range have {
-				if !impliedGuards[key][g] && !libraryErrorChecked(g) {
+				if !impliedGuards[key][g] && !libraryErrorChecked(g) && !stateOnlyGuard(g) {
 					extraOK = false
 				}
 			}
@@ -442,6 +442,21 @@ func libraryErrorChecked(g string) bool {
 	}
 	for _, c := range name {
 		if !(c == '.' || c >= 'a' && c <= 'z' || c >= 'A' && c <= 'Z' || c >= '0' && c <= '9' || c == '_') {
+			return false
+		}
+	}
+	return true
+}
+
+// stateOnlyGuard: the extra guard looks at the receiver's own configuration only (no parameter,
+// hence nothing of the file, key string or message being processed): an identity or recipient
+// that refuses to work when it is not initialised.
+func stateOnlyGuard(g string) bool {
+	if !strings.Contains(g, "Recv") {
+		return false
+	}
+	for i := 0; i+1 < len(g); i++ {
+		if g[i] == 'P' && g[i+1] >= '1' && g[i+1] <= '9' && (i == 0 || !(g[i-1] >= 'a' && g[i-1] <= 'z' || g[i-1] >= 'A' && g[i-1] <= 'Z' || g[i-1] == '.')) {
 			return false
 		}
 	}
